@@ -26,7 +26,8 @@ Expect(rec) ==
     CASE rec.op \in CmpOps \cup {"min", "max"} -> IF rec.sg = 1 /\ rec.w < 2 THEN "err" ELSE "ok"
       [] rec.op = "add"  -> IF IsPow2(rec.w) THEN "ok" ELSE "err"
       [] rec.op = "clip" -> IF rec.k <= rec.w - 2 THEN "ok" ELSE "err"
-      [] rec.op = "div"  -> IF ~IsPow2(rec.w) THEN "err" ELSE IF rec.w = 1 THEN "any" ELSE "ok"
+      [] rec.op = "div"  -> IF ~IsPow2(rec.w) \/ ~IsPow2(rec.wb) THEN "err"
+                            ELSE IF rec.w = 1 \/ rec.wb = 1 THEN "any" ELSE "ok"
       [] rec.op = "mux"  -> "ok"
 
 Unary(rec) == rec.op = "clip"
@@ -39,7 +40,7 @@ ElemInt(rec, i, av, bv) ==
       [] rec.op = "add"  -> /\ rec.r[i] = AddDef(rec.w, av, bv)[1]
                             /\ rec.sg = 1 => rec.r2[i] = AddDef(rec.w, av, bv)[2]
       [] rec.op = "clip" -> rec.r[i] = ClipDef(rec.w, rec.k, av)
-      [] rec.op = "div"  -> bv = 0 \/ << rec.r[i], rec.r2[i] >> = DivDef(rec.sg, rec.w, av, bv)
+      [] rec.op = "div"  -> bv = 0 \/ << rec.r[i], rec.r2[i] >> = DivDef2(rec.sg, rec.w, rec.wb, av, bv)
 
 ElemBits(rec, i, av, bv) ==
     CASE rec.op \in CmpOps -> rec.r[i] = CmpB(rec.op, rec.sg, av, bv)
@@ -48,7 +49,7 @@ ElemBits(rec, i, av, bv) ==
       [] rec.op = "add"  -> /\ rec.r[i] = AddB(av, bv)[1]
                             /\ rec.sg = 1 => rec.r2[i] = AddB(av, bv)[2]
       [] rec.op = "clip" -> rec.r[i] = ClipB(rec.k, av)
-      [] rec.op = "div"  -> bv = ZeroB(rec.w) \/ DivOKB(rec.sg, av, bv, rec.r[i], rec.r2[i])
+      [] rec.op = "div"  -> bv = ZeroB(rec.wb) \/ DivOKB(rec.sg, av, bv, rec.r[i], rec.r2[i])
 
 ElemOK(rec, so, i) ==
     LET av == rec.a[BIdx(rec.sa, so, i - 1) + 1]
